@@ -269,7 +269,7 @@ Section Total.
       + intros f [= <-] l. exact (Tl l).
     - (* a newtype struct *)
       destruct (IH W) as [Tm _]. split.
-      + intros m M. unfold from_meta. cbn [impl_of o_meta]. apply apply_post_total.
+      + intros m M. unfold from_meta. cbn [impl_of o_meta].
         rewrite is_panic_map_ok, map_err_panic. now apply Tm.
       + intros l. reflexivity.
     - (* a unit struct *)
